@@ -30,6 +30,11 @@ def analyse(prop, root=None, overrides=None):
     try:
         mod.run(ck)
     except AnalysisError as e:
+        from .report import load_known as _lk
+        kn = _lk()
+        viol0 = [o for o in ck.obs if o.status == "violated" and not (kn.get(o.key(prop), {}).get("status") == "open")]
+        if viol0:
+            return viol0, [str(e)], ck
         return None, [str(e)], ck
     from .report import load_known
     known = load_known()
